@@ -425,7 +425,7 @@ Definition run_Constraint (kind : bytes) (a : sx) : option sx :=
                                                                | OutOfFuel => OutOfFuel
                                                                end
                                                            | _ => Panic PExplicit end);;
-                                                    let mr := if sys_eqb sys SNPM then ms else SI (-1) in
+                                                    let mr := if sys_eqb sys SNPM || sys_eqb sys SMaven || sys_eqb sys SPyPI then ms else SI (-1) in
                                                     match o with
                                                     | None => Ok (SL [SB s_verr; ms; mr])
                                                     | Some v =>
